@@ -9,6 +9,7 @@ From Coq Require Import Sorting.Sorted ZArith.
 From Stam Require Import Base.Tac Model.Offset Model.Store Model.StoreObs Spec.StoreSpec
      Proofs.StoreScan Proofs.StoreInv Proofs.StoreDataDef Proofs.StoreRemove Proofs.StoreData Proofs.StoreStable
      Model.Compress Proofs.Compress Proofs.StoreSel.
+From Stam Require Model.Validate Proofs.ValidateProtect.
 
 (* every reverse index of every reachable store is exact *)
 Theorem C01_index_invariant : forall ops, Inv (run ops).
@@ -58,6 +59,13 @@ Theorem C01_targets_never_change : forall ops ops' h a',
   h < length (anns (run ops)) -> get_ann (run (ops ++ ops')) h = Some a' ->
   exists a, get_ann (run ops) h = Some a /\ same_ann a a'.
 Proof. exact targets_never_change. Qed.
+
+(* protect-text operations anywhere in the history (the operation of C18: it adds validation data
+   to annotations through its own update of dataset_data_annotation_map): every reverse index
+   stays exact.  [ValidateProtect.reach] = the stores built by the nine operations (data items
+   given ids, not handles) and protect_text in any mode, in any order. *)
+Theorem C01_index_invariant_with_protect_text : forall s, ValidateProtect.reach s -> Inv s.
+Proof. intros s H. exact (ValidateProtect.W_inv s (ValidateProtect.reach_W s H)). Qed.
 
 (* Complex selectors are stored range-compressed (consecutive text selections of one resource,
    consecutive annotations with or without text become one internal ranged selector) and every
